@@ -29,6 +29,14 @@ CURATED = {
 }
 
 
+# curated multi-element molecules (the serializer's final sort by neighbour atomic numbers moves atoms in these)
+CURATED_MOL = {
+    "ethanol": (["C", "C", "O", "H", "H", "H", "H", "H", "H"], [(0, 1), (1, 2), (0, 3), (0, 4), (0, 5), (1, 6), (1, 7), (2, 8)]),
+    "acetonitrile": (["C", "C", "N", "H", "H", "H"], [(0, 1), (1, 2), (0, 3), (0, 4), (0, 5)]),
+    "chloroethanol": (["Cl", "C", "C", "O", "H", "H", "H", "H", "H"], [(0, 1), (1, 2), (2, 3), (1, 4), (1, 5), (2, 6), (2, 7), (3, 8)]),
+}
+
+
 def tier_of(argv_tier=None):
     return argv_tier or os.environ.get("VERIF_TIER") or "quick"
 
@@ -53,7 +61,7 @@ def shape_strata(module, factory, tier, *, extra=None, quick=None, thorough=None
     return jobs
 
 
-def pipeline_jobs(factory, tier, *, relists=("atoms", "bonds"), elem=True, curated=True, extra=None,
+def pipeline_jobs(factory, tier, *, relists=("atoms", "bonds", "labels", "recanon", "keys"), elem=True, curated=True, extra=None,
                   module="harness.pipeline", scale=1.0, km_q=2, kr_q=1, km_t=3, kr_t=2, curated_relist="atoms",
                   n_max_q=4, n_max_t=5):
     """Standard strata of DESIGN §5 for a graph-level harness."""
@@ -67,6 +75,9 @@ def pipeline_jobs(factory, tier, *, relists=("atoms", "bonds"), elem=True, curat
         if r == "atoms" or r is None:
             par = dict(K_m=km_t if thorough else km_q, K_r=kr_t if thorough else kr_q)
             ns = list(range(1, nmax + 1))
+        elif r in ("labels", "recanon", "keys"):
+            par = dict(K_m=2 if thorough else 1, K_r=1)
+            ns = list(range(2, nmax + 1))
         else:
             par = dict(K_m=2 if thorough else 1, K_r=1 if thorough else 0)
             ns = list(range(2, nmax + 1))
@@ -94,15 +105,29 @@ def pipeline_jobs(factory, tier, *, relists=("atoms", "bonds"), elem=True, curat
             if curated_relist is not None:
                 par["relist"] = curated_relist
             js.append(job(module, factory, f"S-curated/{name}", par, max_seconds=ms))
+            if curated_relist is not None and (thorough or n <= 8):
+                for r in ("labels", "recanon"):
+                    js.append(job(module, factory, f"S-curated/{name}/{r}", dict(par, relist=r, K_m=min(par["K_m"], 1), K_r=0), max_seconds=ms))
+        for name, (els, bonds) in CURATED_MOL.items():
+            if not thorough and name == "chloroethanol":
+                continue
+            par = dict(extra, n=len(els), elements=els, bonds=[list(b) for b in bonds], K_m=1, K_r=1 if thorough else 0)
+            if curated_relist is not None:
+                par["relist"] = curated_relist
+            js.append(job(module, factory, f"S-molecule/{name}", par, max_seconds=ms))
+            if thorough and curated_relist is not None:
+                for r in ("labels", "keys", "bonds"):
+                    js.append(job(module, factory, f"S-molecule/{name}/{r}", dict(par, relist=r), max_seconds=ms))
     return js
 
 
 def std_bounds(tier, relist=True):
     t = tier == "thorough"
-    b = {"atoms": "all labelled simple graphs on n <= %d atoms; curated skeletons (C6 ring, prism, K3,3, 2xC3, star K1,5, P8, cubane, C4+C4, C8 ring%s)" % (5 if t else 4, ", Petersen" if t else ""),
+    b = {"atoms": "all labelled simple graphs on n <= %d atoms; curated skeletons (C6 ring, prism, K3,3, 2xC3, star K1,5, P8, cubane, C4+C4, C8 ring%s); curated molecules with hydrogens (ethanol, acetonitrile; thorough: 2-chloroethanol) with one label at a solver-chosen atom" % (5 if t else 4, ", Petersen" if t else ""),
          "labels": "at most K_m mass and K_r radical labels at solver-chosen atoms (K_m<=%d, K_r<=%d on S-shape; fewer on the larger strata, see strata), values symbolic integers >= 1, unbounded above" % ((3, 2) if t else (2, 1)),
          "alphabets": {"S-shape": ["C"], "S-elem6 (n<=%d)" % (3 if t else 2): SIGMA_Q, "S-elem4 (n<=%d)" % (4 if t else 3): SIGMA_T4}}
     if relist:
+        b["relistings_of_graph_objects"] = "keys: the declared indices (dict keys handed to graph_from_molecule) of two adjacent listing positions exchanged, so that indices do not ascend in listing order; labels: two solver-chosen adjacent labels exchanged without changing the node iteration order (nx.relabel_nodes); recanon: the canonical graph itself fed back in (its listing order differs from its numbering)"
         b["relistings"] = "one adjacent transposition of the atom listing at a solver-chosen position (generators of S_n; the strata are closed under relabelling); bond listing reversed / rotated; bond orientation none / all / one solver-chosen bond flipped"
     return b
 
